@@ -79,6 +79,11 @@ theorem trig_env (s s' : St) (a : Act) (ha : a.isEnv = true) (ht : s.triggered =
     split at h
     · simp at h; subst h; simpa [St.triggered] using ht
     · simp at h
+  case envDeadline sid =>
+    simp only [step] at h
+    split at h
+    · simp at h; subst h; simpa [St.triggered] using ht
+    · simp at h
   case envStart i =>
     simp only [step] at h
     split at h
@@ -143,6 +148,7 @@ theorem trig_rl (s s' : St) (a : Act) (hi : Inv s) (ht : s.triggered = true) (h 
         | shutdownComplete =>
           simp only [E, Choreo.expected, applyOps, List.foldl, applyOp, Option.some.injEq] at h
           subst h; simp [St.triggered]
+        | shutdownAck => simp at h; subst h; trig_close
       · simp at h
     · simp at h
   · simp only [step] at h
@@ -347,10 +353,14 @@ theorem trig_call (s s' : St) (i arm : Nat) (hi : Inv s) (ht : s.triggered = tru
           exact keep _ _ rfl id rfl rfl rfl rfl (Or.inl rfl)
       · simp at h
     | shWait =>
-      simp only [E, Choreo.expected, Bool.true_and] at h
-      split at h <;>
-        (simp only [Option.ite_none_right_eq_some, Option.some.injEq] at h; obtain ⟨hg, rfl⟩ := h
-         exact keep _ s rfl id rfl rfl rfl rfl (Or.inl rfl))
+      simp only [E, Choreo.expected, Bool.true_and, ite_true] at h
+      split at h
+      · simp only [Option.ite_none_right_eq_some, Option.some.injEq] at h
+        obtain ⟨hg, hl, rfl⟩ := h
+        exact keep _ s rfl id rfl rfl rfl rfl (Or.inl rfl)
+      · simp only [Option.ite_none_right_eq_some, Option.some.injEq] at h
+        obtain ⟨hg, rfl⟩ := h
+        exact keep _ s rfl id rfl rfl rfl rfl (Or.inl rfl)
     | cl k =>
       simp only [callerInv, Bool.and_eq_true, Bool.or_eq_true, decide_eq_true_eq] at hc0
       rcases k with _|_|_|_|_|k
@@ -445,7 +455,7 @@ theorem call_result (s s' : St) (i arm : Nat) (c : Caller) (k : Kind) (r : Res)
     | .wrWait => r = .err .ctx
     | .accWait => r = .eof
     | .shBegin => r = .err .shutdownNonEstablished
-    | .shWait => (r = .nil ∧ s.cw = true) ∨ r = .err .ctx
+    | .shWait => (r = .nil ∧ s.cw = true ∧ s.sdAcked = true) ∨ (r = .err .shutdownIncomplete ∧ s.cw = true ∧ s.sdAcked = false) ∨ r = .err .ctx
     | .cl _ => r = .ok
     | .ab _ _ => r = .ok
     | _ => False := by
@@ -499,14 +509,17 @@ theorem call_result (s s' : St) (i arm : Nat) (c : Caller) (k : Kind) (r : Res)
         simp [setCaller, hlt] at hf
     · simp at h
   | shWait =>
-    simp only [E, Choreo.expected, Bool.true_and] at h
+    simp only [E, Choreo.expected, Bool.true_and, ite_true] at h
     split at h
     · simp only [Option.ite_none_right_eq_some, Option.some.injEq] at h
-      obtain ⟨hg, rfl⟩ := h
-      simp [setCaller, hlt] at hf; exact Or.inl ⟨hf.2.symm, hg⟩
+      obtain ⟨hg, hl, rfl⟩ := h
+      simp [setCaller, hlt] at hf
+      cases hsa : s.sdAcked
+      · simp [hsa] at hf; exact Or.inr (Or.inl ⟨hf.2.symm, hg, rfl⟩)
+      · simp [hsa] at hf; exact Or.inl ⟨hf.2.symm, hg, rfl⟩
     · simp only [Option.ite_none_right_eq_some, Option.some.injEq] at h
       obtain ⟨hg, rfl⟩ := h
-      simp [setCaller, hlt] at hf; exact Or.inr hf.2.symm
+      simp [setCaller, hlt] at hf; exact Or.inr (Or.inr hf.2.symm)
   | cl k0 =>
     simp only at h
     split at h
@@ -625,6 +638,177 @@ theorem closeErr_stable (s s' : St) (a : Act) (hl : leaving s = true) (h : step 
     have := chArm_closeErr _ _ _ _ _ hs1
     simpa using this)
 
+theorem applyOp_sdAcked (ch : Choreo) (s : St) (op : Op) : (applyOp ch s op).sdAcked = s.sdAcked := by
+  cases op <;> simp only [applyOp] <;> (try split) <;> rfl
+
+theorem execOp_sdAcked (ch : Choreo) (s s1 : St) (c : String) (op : Op) (h : execOp ch s c op = some s1) :
+    s1.sdAcked = s.sdAcked := by
+  cases op <;> simp only [execOp, Option.some.injEq] at h <;> (try (subst h; exact applyOp_sdAcked ch s _))
+  all_goals (split at h <;> simp at h; subst h; rfl)
+
+theorem chArm_sdAcked (ch : Choreo) (s s1 : St) (err : Bool) (arm : Nat) (h : chArm ch s err arm = some s1) :
+    s1.sdAcked = s.sdAcked := by
+  unfold chArm at h
+  (repeat' split at h) <;> simp at h <;> (try (obtain ⟨_, rfl⟩ := h)) <;> (try subst h) <;> rfl
+
+/-- only `rlHandle` touches the completion flag of Shutdown -/
+theorem sdAcked_unchanged (s s' : St) (a : Act) (ha : a ≠ .rlHandle) (h : step E s a = some s') : s'.sdAcked = s.sdAcked := by
+  cases a
+  case rlReadErr => simp only [step] at h; split at h <;> (simp at h; try subst h; try rfl)
+  case rlHandle => exact absurd rfl ha
+  case rlDefer =>
+    simp only [step] at h
+    split at h
+    · split at h
+      · simp at h; subst h; rfl
+      · simp only [Option.map_eq_some_iff] at h
+        obtain ⟨s1, hs1, rfl⟩ := h
+        (have := execOp_sdAcked _ _ _ _ _ hs1; simpa [setCaller] using this)
+    · simp at h
+  case cn arm =>
+    simp only [step] at h
+    split at h
+    · split at h <;> (simp only [Option.ite_none_right_eq_some, Option.some.injEq] at h; obtain ⟨_, rfl⟩ := h; rfl)
+    · split at h
+      · simp at h; subst h; rfl
+      · simp only [Option.map_eq_some_iff] at h
+        obtain ⟨s1, hs1, rfl⟩ := h
+        (have := execOp_sdAcked _ _ _ _ _ hs1; simpa [setCaller] using this)
+    · simp at h
+  case call i arm =>
+    simp only [step, callerStep] at h
+    split at h
+    · simp at h
+    · rename_i c hci
+      cases c <;> simp only at h
+      case idle => simp at h
+      case fin => simp at h
+      case rdWait => simp only [Option.ite_none_right_eq_some, Option.some.injEq] at h; obtain ⟨_, rfl⟩ := h; rfl
+      case wrBegin => (repeat' split at h) <;> simp at h <;> subst h <;> rfl
+      case wrWait => (repeat' split at h) <;> simp at h <;> (obtain ⟨_, rfl⟩ := h; rfl)
+      case accWait => simp only [Option.ite_none_right_eq_some, Option.some.injEq] at h; obtain ⟨_, rfl⟩ := h; rfl
+      case shBegin =>
+        split at h
+        · split at h
+          · simp at h; subst h; rfl
+          · simp only [Option.some.injEq] at h; subst h; simp [setCaller, applyOp_sdAcked]
+        · simp at h
+      case shWait => (repeat' split at h) <;> simp at h <;> (obtain ⟨_, rfl⟩ := h; rfl)
+      case cl =>
+        split at h
+        · simp at h; subst h; rfl
+        · simp only [Option.map_eq_some_iff] at h
+          obtain ⟨s1, hs1, rfl⟩ := h
+          (have := execOp_sdAcked _ _ _ _ _ hs1; simpa [setCaller] using this)
+      case ab =>
+        split at h
+        · simp at h; subst h; rfl
+        · simp only [Option.map_eq_some_iff] at h
+          obtain ⟨s1, hs1, rfl⟩ := h
+          (have := execOp_sdAcked _ _ _ _ _ hs1; simpa [setCaller] using this)
+  all_goals (simp only [step] at h; (repeat' split at h) <;> (try simp at h) <;> (try subst h) <;> (try rfl))
+  all_goals (
+    obtain ⟨s1, hs1, rfl⟩ := h
+    have := chArm_sdAcked _ _ _ _ _ hs1
+    simpa using this)
+
+/-! ### the terminal read error is sticky -/
+
+theorem applyOp_gone_unreg (s : St) (op : Op) : (applyOp E s op).gone = s.gone ∧ (s.unreg = true → (applyOp E s op).unreg = true) := by
+  cases op <;> simp [applyOp, E, Choreo.expected]
+
+theorem execOp_gone_unreg (s s1 : St) (c : String) (op : Op) (h : execOp E s c op = some s1) :
+    s1.gone = s.gone ∧ (s.unreg = true → s1.unreg = true) := by
+  cases op <;> simp only [execOp, Option.some.injEq] at h <;> (try (subst h; exact applyOp_gone_unreg s _))
+  all_goals (split at h <;> simp at h; subst h; exact ⟨rfl, id⟩)
+
+theorem chArm_gone_unreg (s s1 : St) (err : Bool) (arm : Nat) (h : chArm E s err arm = some s1) :
+    s1.gone = s.gone ∧ s1.unreg = s.unreg := by
+  unfold chArm at h
+  (repeat' split at h) <;> simp at h <;> (try (obtain ⟨_, rfl⟩ := h)) <;> (try subst h) <;> exact ⟨rfl, rfl⟩
+
+/-- Once every stream has been unregistered with the close error (`unreg`), no step - in particular no read deadline that
+expires afterwards (`envDeadline`) - changes what a read on any stream returns: `unreg` stays, the set of streams that ended
+with EOF stays, the close error stays (`closeErr_stable`), and no terminal error is ever lost (`Inv.lost`). -/
+theorem terminal_sticky (s s' : St) (a : Act) (hi : Inv s) (hu : s.unreg = true) (h : step E s a = some s') :
+    s'.unreg = true ∧ s'.gone = s.gone ∧ s'.closeErr = s.closeErr ∧ s'.lost = [] := by
+  have hl : leaving s = true := by
+    have := hi.u4 hu
+    unfold leaving; unfold prog at this
+    cases hrl : s.rl <;> simp [hrl] at this ⊢
+  have hce := closeErr_stable s s' a hl h
+  have hlost := (inv_step s s' a hi h).lost
+  refine ⟨?_, ?_, hce, hlost⟩ <;>
+  · cases a
+    case rlHandle =>
+      simp only [step] at h
+      split at h
+      · rename_i p hp; simp [leaving, hp] at hl
+      · simp at h
+    case rlDefer =>
+      simp only [step] at h
+      split at h
+      · split at h
+        · simp at h; subst h; first | exact hu | rfl
+        · simp only [Option.map_eq_some_iff] at h
+          obtain ⟨s1, hs1, rfl⟩ := h
+          have := execOp_gone_unreg s s1 _ _ hs1
+          first | exact this.2 hu | exact this.1
+      · simp at h
+    case cn arm =>
+      simp only [step] at h
+      split at h
+      · split at h <;> (simp only [Option.ite_none_right_eq_some, Option.some.injEq] at h; obtain ⟨_, rfl⟩ := h; first | exact hu | rfl)
+      · split at h
+        · simp at h; subst h; first | exact hu | rfl
+        · simp only [Option.map_eq_some_iff] at h
+          obtain ⟨s1, hs1, rfl⟩ := h
+          have := execOp_gone_unreg s s1 _ _ hs1
+          first | exact this.2 hu | exact this.1
+      · simp at h
+    case rlCH arm =>
+      simp only [step] at h
+      split at h
+      · split at h
+        · obtain ⟨s1, hs1, rfl⟩ := Option.map_eq_some_iff.mp h
+          have := chArm_gone_unreg s s1 _ _ hs1
+          first | (show s1.unreg = true; rw [this.2]; exact hu) | exact this.1
+        · simp at h
+      · simp at h
+    case tcCH arm =>
+      simp only [step] at h
+      split at h
+      · obtain ⟨s1, hs1, rfl⟩ := Option.map_eq_some_iff.mp h
+        have := chArm_gone_unreg s s1 _ _ hs1
+        first | (show s1.unreg = true; rw [this.2]; exact hu) | exact this.1
+      · simp at h
+    case call i arm =>
+      simp only [step, callerStep] at h
+      split at h
+      · simp at h
+      · rename_i c hci
+        cases c <;> simp only at h
+        case idle => simp at h
+        case fin => simp at h
+        case cl =>
+          split at h
+          · simp at h; subst h; first | exact hu | rfl
+          · simp only [Option.map_eq_some_iff] at h
+            obtain ⟨s1, hs1, rfl⟩ := h
+            have := execOp_gone_unreg s s1 _ _ hs1
+            first | exact this.2 hu | exact this.1
+        case ab =>
+          split at h
+          · simp at h; subst h; first | exact hu | rfl
+          · simp only [Option.map_eq_some_iff] at h
+            obtain ⟨s1, hs1, rfl⟩ := h
+            have := execOp_gone_unreg s s1 _ _ hs1
+            first | exact this.2 hu | exact this.1
+        all_goals ((repeat' split at h) <;> (try simp at h) <;> (try (obtain ⟨_, rfl⟩ := h)) <;> (try subst h) <;>
+          (first | exact hu | rfl | (simp [setCaller, applyOp, E, Choreo.expected]; try exact hu)))
+    all_goals ((simp only [step] at h; (repeat' split at h) <;> (try simp at h) <;> (try (obtain ⟨_, rfl⟩ := h)) <;> (try subst h) <;>
+      (first | exact hu | rfl | (simp [applyOps, applyOp, E, Choreo.expected]; try exact hu))))
+
 /-! ### Close on a closed association -/
 
 structure Closed (s : St) : Prop where
@@ -692,5 +876,31 @@ theorem close_again (s : St) (i : Nat) (hc : Closed s) (hi : s.callers[i]? = som
   rw [close_step_closed _ i 4 (closed_setCaller s i _ hc) (setCaller_get s i _ hlt) (by omega), setCaller_setCaller]
   simp only [step, callerStep, setCaller_get s i _ hlt, E, Choreo.expected]
   simp [setCaller_setCaller]
+
+/-- the completion flag of Shutdown is raised only by handling the peer's SHUTDOWN-ACK or SHUTDOWN-COMPLETE -/
+theorem sdAcked_only_by_peer (s s' : St) (a : Act) (h : step E s a = some s') (hs : s'.sdAcked = true) :
+    s.sdAcked = true ∨ (a = .rlHandle ∧ (s.rl = .handling .shutdownAck ∨ s.rl = .handling .shutdownComplete)) := by
+  cases hsa : s.sdAcked
+  · right
+    cases a
+    case rlHandle =>
+      refine ⟨rfl, ?_⟩
+      simp only [step] at h
+      split at h
+      · rename_i p hp
+        split at h
+        · cases p with
+          | shutdownAck => exact Or.inl hp
+          | shutdownComplete => exact Or.inr hp
+          | data => simp at h; subst h; simp [hsa] at hs
+          | hsFinal e => simp only at h; split at h <;> (simp at h; subst h; simp [hsa] at hs)
+          | abort c =>
+            simp only [E, Choreo.expected, applyOps, List.foldl, applyOp, Option.some.injEq] at h
+            subst h; simp [hsa] at hs
+          | reset sid => simp only at h; split at h <;> (simp at h; subst h; simp [hsa] at hs)
+        · simp at h
+      · simp at h
+    all_goals (have := sdAcked_unchanged s s' _ (by simp) h; rw [this, hsa] at hs; cases hs)
+  · exact Or.inl rfl
 
 end Conc
